@@ -34,7 +34,7 @@ def BOUNDS(tier):
 
 
 def REQUIRED_COVER(tier):
-    return {'ids:local>peer', 'ids:local<peer', 'ids:equal', 'pair:same-key', 'flip:sig', 'flip:msg', 'sign:resplit', 'mnemonic:deviation', 'wallet-key', 'derive-history', 'sign:encoders', 'mnemonic:keeps-drawing', 'channel-history', 'mnemonic:stream-family'}
+    return {'ids:local>peer', 'ids:local<peer', 'ids:equal', 'pair:same-key', 'flip:sig', 'flip:msg', 'sign:resplit', 'mnemonic:deviation', 'wallet-key', 'derive-history', 'sign:encoders', 'mnemonic:keeps-drawing', 'channel-history', 'mnemonic:stream-family', 'mnemonic:words-count'}
 
 
 # ------------------------------------------------------------------ reference derivations
@@ -501,6 +501,45 @@ def shard_mnemonic(rec, stream, k, part, parts):
     rec.sample({'stream': stream, 'deviations': {'3': 0x07ff}, 'oracle': 'first basic-seed group of the scripted stream'})
 
 
+def case_words_count(rec, count, stream):
+    """mnemonic_new(words_count): the generator's own parameter.  Whatever it returns has that many list words, is a basic seed, and is a
+    VALID mnemonic for mnemonic_is_valid ("generated mnemonics are always valid")"""
+    import pytoniq_core.crypto.keys as K
+    rec.case('words-count')
+    args = {'count': count, 'stream': stream}
+    src = Scripted(rec.seed, stream, {}, 40000)
+    real = K.os.urandom
+    K.os.urandom = src
+    try:
+        try:
+            words = K.mnemonic_new(count)
+        except Horizon:
+            rec.outcome('horizon')
+            return
+    finally:
+        K.os.urandom = real
+    rec.trans()
+    rec.trace()
+    rec.state(('words-count', count, stream))
+    rec.nontriv(('words-count', count, stream))
+    rec.covered('mnemonic:words-count')
+    if len(words) != count or any(w not in K.words for w in words) or not ref_basic_seed(words):
+        rec.violation('mnemonic:words-count:shape', f'mnemonic_new({count}) returned {len(words)} words / unknown words / not a basic seed', 'case_words_count', args)
+        return
+    if K.mnemonic_is_valid(words) is not True:
+        rec.violation('mnemonic:is_valid:words_count', f'mnemonic_new({count}) returned a {len(words)}-word basic-seed mnemonic that mnemonic_is_valid rejects', 'case_words_count', args)
+        rec.outcome('generated-but-invalid')
+        return
+    rec.outcome('mnemonic-ok')
+
+
+def shard_words_count(rec):
+    for count in (12, 18, 24):
+        for stream in ('hash', 'hash:1'):
+            case_words_count(rec, count, stream)
+    rec.sample({'words_count': 12, 'oracle': 'length, word list, basic seed (reference rule), mnemonic_is_valid'})
+
+
 def shard_mnemonic_family(rec, lo, hi):
     """the family of hash streams j = lo..hi-1, each to completion: about 256 distinct rejected candidates and one distinct accepted mnemonic
     per stream - whatever mnemonic_new returns must be valid for mnemonic_is_valid and for the reference rule"""
@@ -524,6 +563,7 @@ def selftest():
 def shards(tier, seed):
     out = [{'fn': 'shard_channels', 'args': {'ia': i}} for i in range(6)]
     out.append({'fn': 'shard_sign', 'args': {}})
+    out.append({'fn': 'shard_words_count', 'args': {}, 'prio': 3})
     for ia, ib in ((0, 1), (1, 0), (2, 2)):
         if tier == 'quick':
             out.append({'fn': 'shard_channel_history', 'args': {'ia': ia, 'ib': ib, 'depth': 3}, 'prio': 2})
